@@ -26,6 +26,7 @@ from __future__ import annotations
 
 from mc import afx
 from mc import family as FAM
+from mc import treehash
 from mc import validate as V
 from mc.explorer import Result
 
@@ -173,6 +174,7 @@ def make_tree(full, diag):
 
 def run(ctx):
     afx.serial()
+    treehash.tree_hash()  # pin the cache key in the parent: all forked workers of this run share one cache directory
     full, diag = spec_lists(ctx)
     _FULL.update(full)
     tree, sids = make_tree(full, diag)
